@@ -67,7 +67,7 @@ func checkC03(c c03Case) verdict {
 	if c.Via != 0 && !c.NilParam {
 		labels = append(labels, "via-exported-default")
 	}
-	disturb(c.Before)
+	disturb(c.Before, secret)
 	got, err := otp.ValidateHOTP(secret, string(c.Code), c.Counter, param)
 	supported := digits >= 1 && digits <= 10 && algo >= 0 && algo <= 2
 	if skew > 10 {
@@ -284,7 +284,7 @@ func checkC04(c c04Case) verdict {
 	if c.Via != 0 && !c.NilParam {
 		labels = append(labels, "via-exported-default")
 	}
-	disturb(c.Before)
+	disturb(c.Before, secret)
 	if !bounded(func() { got, err = otp.ValidateTOTP(secret, string(c.Code), t, param) }, 10*time.Second) {
 		hang("C04", "main", c, recorders["C04/main"], fmt.Sprintf("ValidateTOTP(skew=%d, period=%d) did not return within 10 s and again within 20 s: work is not bounded in the skew", skew, period))
 	}
